@@ -1,6 +1,6 @@
 package pongo2
 
-import "os"
+import "io"
 
 type tagSSINode struct {
 	filename string
@@ -40,8 +40,12 @@ func tagSSIParser(doc *Parser, start *Token, arguments *Parser) (INodeTag, *Erro
 			}
 			SSINode.template = temporaryTpl
 		} else {
-			// plaintext
-			buf, err := os.ReadFile(doc.template.set.resolveFilename(doc.template, fileToken.Val))
+			// plaintext (read through the set's loaders, like any other template)
+			_, _, fd, err := doc.template.set.resolveTemplate(doc.template, fileToken.Val)
+			var buf []byte
+			if err == nil {
+				buf, err = io.ReadAll(fd)
+			}
 			if err != nil {
 				return nil, (&Error{
 					Sender:    "tag:ssi",
